@@ -1,0 +1,148 @@
+// Copyright 2013-2020 go-diameter authors. All rights reserved.
+// Use of this source code is governed by a BSD-style license that can be
+// found in the LICENSE file.
+
+//go:build verif
+// +build verif
+
+// Verification hook: lets an SCTPConn run on top of an in-memory association
+// instead of a kernel SCTP socket, and exposes a consistency check of the
+// per-stream buffers. Compiled only with the "verif" build tag.
+
+package diam
+
+import (
+	"fmt"
+	"net"
+	"sync"
+	"time"
+
+	"github.com/ishidawataru/sctp"
+)
+
+// VerifSCTPBackend is what an in-memory association has to provide.
+type VerifSCTPBackend interface {
+	SCTPRead(b []byte) (int, *sctp.SndRcvInfo, error)
+	SCTPWrite(b []byte, info *sctp.SndRcvInfo) (int, error)
+	Close() error
+	LocalAddr() net.Addr
+	RemoteAddr() net.Addr
+}
+
+var verifBackends sync.Map // *SCTPConn -> VerifSCTPBackend
+
+// VerifNewSCTPConn creates a diam.SCTPConn whose socket calls go to backend.
+func VerifNewSCTPConn(backend VerifSCTPBackend) *SCTPConn {
+	msc := &SCTPConn{s: &streams{}, currStream: InvalidStreamID, writerStream: InvalidStreamID}
+	verifBackends.Store(msc, backend)
+	return msc
+}
+
+// VerifRelease forgets the backend registered for msc.
+func VerifRelease(msc *SCTPConn) {
+	verifBackends.Delete(msc)
+}
+
+func (msc *SCTPConn) verifBackend() VerifSCTPBackend {
+	if b, ok := verifBackends.Load(msc); ok {
+		return b.(VerifSCTPBackend)
+	}
+	return nil
+}
+
+// SCTPRead shadows the embedded socket's method.
+func (msc *SCTPConn) SCTPRead(b []byte) (int, *sctp.SndRcvInfo, error) {
+	if be := msc.verifBackend(); be != nil {
+		return be.SCTPRead(b)
+	}
+	return msc.SCTPConn.SCTPRead(b)
+}
+
+// SCTPWrite shadows the embedded socket's method.
+func (msc *SCTPConn) SCTPWrite(b []byte, info *sctp.SndRcvInfo) (int, error) {
+	if be := msc.verifBackend(); be != nil {
+		return be.SCTPWrite(b, info)
+	}
+	return msc.SCTPConn.SCTPWrite(b, info)
+}
+
+// Close shadows the embedded socket's method.
+func (msc *SCTPConn) Close() error {
+	if be := msc.verifBackend(); be != nil {
+		return be.Close()
+	}
+	return msc.SCTPConn.Close()
+}
+
+// LocalAddr shadows the embedded socket's method.
+func (msc *SCTPConn) LocalAddr() net.Addr {
+	if be := msc.verifBackend(); be != nil {
+		return be.LocalAddr()
+	}
+	return msc.SCTPConn.LocalAddr()
+}
+
+// RemoteAddr shadows the embedded socket's method.
+func (msc *SCTPConn) RemoteAddr() net.Addr {
+	if be := msc.verifBackend(); be != nil {
+		return be.RemoteAddr()
+	}
+	return msc.SCTPConn.RemoteAddr()
+}
+
+// SetDeadline shadows the embedded socket's method.
+func (msc *SCTPConn) SetDeadline(t time.Time) error {
+	if be := msc.verifBackend(); be != nil {
+		return nil
+	}
+	return msc.SCTPConn.SetDeadline(t)
+}
+
+// SetReadDeadline shadows the embedded socket's method.
+func (msc *SCTPConn) SetReadDeadline(t time.Time) error {
+	if be := msc.verifBackend(); be != nil {
+		return nil
+	}
+	return msc.SCTPConn.SetReadDeadline(t)
+}
+
+// SetWriteDeadline shadows the embedded socket's method.
+func (msc *SCTPConn) SetWriteDeadline(t time.Time) error {
+	if be := msc.verifBackend(); be != nil {
+		return nil
+	}
+	return msc.SCTPConn.SetWriteDeadline(t)
+}
+
+// VerifCheckStreams checks, under the demultiplexer's own lock, that the
+// stream-buffer heap is ordered by buffered length, that every buffer knows
+// its heap position and that the heap and the stream map hold the same
+// buffers. It returns the number of bytes buffered per stream.
+func (msc *SCTPConn) VerifCheckStreams() (map[uint]int, error) {
+	msc.streamBuffMu.Lock()
+	defer msc.streamBuffMu.Unlock()
+	buffered := make(map[uint]int, len(msc.s.streamHeap))
+	h := msc.s.streamHeap
+	if len(h) != len(msc.s.streamMap) {
+		return nil, fmt.Errorf("heap holds %d buffers, map %d", len(h), len(msc.s.streamMap))
+	}
+	for i, sb := range h {
+		if sb.idx != i {
+			return nil, fmt.Errorf("stream %d: idx %d at heap position %d", sb.stream, sb.idx, i)
+		}
+		if m, ok := msc.s.streamMap[sb.stream]; !ok || m != sb {
+			return nil, fmt.Errorf("stream %d: heap entry %d is not the map entry", sb.stream, i)
+		}
+		if _, dup := buffered[sb.stream]; dup {
+			return nil, fmt.Errorf("stream %d twice in the heap", sb.stream)
+		}
+		buffered[sb.stream] = sb.Len()
+		if i > 0 {
+			if p := (i - 1) / 2; h[p].Len() < sb.Len() {
+				return nil, fmt.Errorf("heap order: parent %d (stream %d, %d bytes) < child %d (stream %d, %d bytes)",
+					p, h[p].stream, h[p].Len(), i, sb.stream, sb.Len())
+			}
+		}
+	}
+	return buffered, nil
+}
